@@ -64,6 +64,10 @@ structure Whn (α : Type) where
   b : Base α := {}
   cur : Nat := 0          -- `window`
   calls : Nat := 0        -- number of `closing_mapper()` calls so far
+  /-- closing observables that fire synchronously inside their own `subscribe` (`empty()`, a BehaviorSubject,
+  `throw(e)`): entry `k` for the k-th mapper call — `some none`: fires (next/completed), `some (some e)`: errors,
+  `none` / out of range: a hot observable from the pool (or `never()`). -/
+  sync : List (Option (Option Err)) := []
 deriving Repr
 
 namespace Whn
@@ -73,19 +77,35 @@ variable {α : Type}
 def onEnd (s : Whn α) (e : Option Err) : Whn α := { s with b := (s.b.winEnd s.cur e).outerEnd e }
 
 /-- `create_window_on_completed()`: call the mapper (`raiseAt = some k`: its k-th call raises; at most `pool`
-closing observables exist, later calls return `never()`), then `m.disposable = m1` (the previous closing
-subscription is disposed) and subscribe to `window_close.pipe(take(1))`.  A raising mapper goes to the shared
-`on_error(exception)`: the open window fails, then the outer observer (repo fix c2c9edd). -/
+closing observables exist, later calls return `never()`), then `m1 = SingleAssignmentDisposable(); m.disposable = m1`
+(the previous closing subscription is disposed) and `m1.disposable = window_close.pipe(take(1)).subscribe(...)`.
+A raising mapper goes to the shared `on_error(exception)` (repo fix c2c9edd).  A closing observable that fires
+INSIDE its own subscribe runs `on_completed` re-entrantly: the window is rotated and `create_window_on_completed()`
+recurses — its `m.disposable = m1'` disposes the outer frame's (still empty) `m1`, so the outer frame's late
+assignment `m1.disposable = <finished subscription>` cannot touch the new live closing subscription.  `fuel` bounds
+the recursion (at most `sync.length` closings can fire synchronously). -/
+def createClosingF (raiseAt : Option Nat) (pool : Nat) : Nat → Whn α → Whn α
+  | 0, s => s
+  | fuel + 1, s =>
+    let k := s.calls
+    let s := { s with calls := k + 1 }
+    if raiseAt == some k then onEnd s (some s!"cm{k}")
+    else
+      -- SerialDisposable: assigning disposes the old one (or the new one if the serial is already disposed)
+      let b := if k ≥ 1 then s.b.unsub k else s.b
+      match (s.sync[k]?).join with
+      | some none =>
+        let b := b.winEnd s.cur none
+        let (b, id) := b.newWin
+        createClosingF raiseAt pool fuel { s with b := b.outerNext id, cur := id }
+      | some (some e) => onEnd { s with b := b } (some e)
+      | none =>
+        -- subscribing while the group is already disposed: the subscription is disposed as soon as it is assigned
+        let b := if k < pool then (if b.rcDisposed then (b.subscribe (k + 1)).unsub (k + 1) else b.subscribe (k + 1)) else b
+        { s with b := b }
+
 def createClosing (raiseAt : Option Nat) (pool : Nat) (s : Whn α) : Whn α :=
-  let k := s.calls
-  let s := { s with calls := k + 1 }
-  if raiseAt == some k then onEnd s (some s!"cm{k}")
-  else
-    -- SerialDisposable: assigning disposes the old one (or the new one if the serial is already disposed)
-    let b := if k ≥ 1 then s.b.unsub k else s.b
-    -- subscribing while the group is already disposed: the subscription is disposed as soon as it is assigned
-    let b := if k < pool then (if b.rcDisposed then (b.subscribe (k + 1)).unsub (k + 1) else b.subscribe (k + 1)) else b
-    { s with b := b }
+  createClosingF raiseAt pool (s.sync.length + 2) s
 
 /-! ### AsIs (before repo fix c2c9edd): the raising mapper reached only `observer.on_error(exception)`; the open
 window was never terminated and kept the source subscribed.  Used only by the witness `C18.when_mapper_raise_asis`. -/
@@ -94,9 +114,9 @@ def createClosingAsIs (raiseAt : Option Nat) (s : Whn α) : Whn α :=
   let s := { s with calls := k + 1 }
   if raiseAt == some k then { s with b := s.b.outerEnd (some s!"cm{k}") } else s
 
-def init (raiseAt : Option Nat) (pool : Nat) (t0 : Nat) : Whn α :=
+def init (raiseAt : Option Nat) (pool : Nat) (t0 : Nat) (sync : List (Option (Option Err)) := []) : Whn α :=
   let (b, id) := ({ now := t0 } : Base α).newWin
-  createClosing raiseAt pool { b := (b.outerNext id).subscribe 0, cur := id }
+  createClosing raiseAt pool { b := (b.outerNext id).subscribe 0, cur := id, sync := sync }
 
 /-- the closing observable fired (`take(1)`: first `next`, or `completed`). -/
 def onClose (raiseAt : Option Nat) (pool : Nat) (s : Whn α) : Whn α :=
